@@ -1,5 +1,5 @@
 (* Entry points evaluated by the correspondence harness (props/C18.py). *)
-From PV Require Export C18.Spec C18.Handle.
+From PV Require Export C18.Spec C18.Handle C18.Call.
 
 Definition jv_zs (l : list Z) : jv := JL (map JZ l).
 Definition jv_resv (r : resv) : jv :=
@@ -85,3 +85,19 @@ Definition run_hist (h : handle) (occ : occupant) (k : kernel) (r : req) : jv :=
        | None => jnone
        end;
        jbool (wf_allb k) ].
+
+(* the same two entry points for a call given in its literal form (positionals + keywords):
+   the arguments are bound as Python binds them, then the bound request is run *)
+Definition req_of_call (m : method) (c : call) : outcome req := do vals <- bind m c; to_req m vals.
+Definition run_case_c (k : kernel) (pid : Z) (m : method) (c : call) : jv :=
+  match req_of_call m c with
+  | Val r => run_case k pid r
+  | Exc e => JC "BindError" [JC (exn_name e) []]
+  | OutOfModel => JC "OutOfModel" []
+  end.
+Definition run_hist_c (h : handle) (occ : occupant) (k : kernel) (m : method) (c : call) : jv :=
+  match req_of_call m c with
+  | Val r => run_hist h occ k r
+  | Exc e => JC "BindError" [JC (exn_name e) []]
+  | OutOfModel => JC "OutOfModel" []
+  end.
